@@ -508,6 +508,10 @@ fn campaign(a: &Args, rng: &mut Rng, rep: &mut Report, sink: &mut Sink) {
             }
         }
         "C05" | "C06" | "C07" => {
+            if p != "C07" {
+                // the history container: its iterator adaptors against the elements `next()` yields
+                list_ops(rng, 1500 * sc, if p == "C05" { "C05" } else { "C06" }, rep, sink);
+            }
             // games from the initial state through a full setup: the opening position itself can repeat
             for k in 0..8 * sc {
                 setup_walk(rng, rep, sink, Emit { obs_pm: 150, all_t_pm: 0 }, 70, [Policy::Shuttle, Policy::RepSeek, Policy::Shuttle, Policy::Restore][k % 4]);
@@ -535,7 +539,7 @@ fn campaign(a: &Args, rng: &mut Rng, rep: &mut Report, sink: &mut Sink) {
             transposition_groups(rng, 60 * sc, rep);
             let tc = trap_clusters(rng, 25 * sc);
             run_turn_trees(&tc, 400, rng, rep, sink, Emit { obs_pm: 30, all_t_pm: 0 });
-            list_ops(rng, 3000 * sc, rep, sink);
+            list_ops(rng, 3000 * sc, "C08", rep, sink);
             for _ in 0..5 * sc {
                 setup_walk(rng, rep, sink, light, 60, Policy::Capture);
             }
